@@ -7,7 +7,7 @@
     The change strategy is an arbitrary function ([change]); no conservation property of it is
     assumed — the balance of a step is what Step::from_parts checks. *)
 From V.Lib Require Import Base.
-From V.C08 Require Import Sql Model Spec Corr Wf ProofsSql ProofsSel ProofsProp ProofsGreedy ProofsSeq Bridge.
+From V.C08 Require Import Sql Model Spec Corr Wf ProofsSql ProofsSel ProofsProp ProofsGreedy ProofsAnchor ProofsSeq Bridge.
 From V.Gen Require Import C08SqlPred.
 Local Open Scope Z_scope.
 
@@ -104,27 +104,59 @@ Proof. exact lock_outputs_holds. Qed.
 (** ... and such outputs are not taken by any later proposal that does not name the owner, while
     the lock has not expired. *)
 Theorem C08_locked_proposal_not_reused :
-  forall change fuel tip owner expiry refs db db' e tip' acct pay oo permitted pol lp lock steps s x,
+  forall change fuel tip owner expiry refs db db' e tip' acct pay sp oo permitted pol lp lock canon steps s x,
   NoDup (rrefs db) -> 1 <= p_trusted pol -> p_trusted pol <= p_untrusted pol ->
+  (forall ci, canon = Some ci -> 0 < c_interval ci) ->
+  (forall ci sa, canon = Some ci -> c_sel_anchor ci = Some sa -> sa <= c_boundary ci) ->
   lock_outputs tip owner expiry refs db = Some db' ->
   e_target e <= expiry -> ~ In owner (overridable (LFPolicy lp)) ->
-  propose_transfer change fuel db' e tip' acct pay oo permitted pol lp lock = Ok steps ->
+  propose_transfer change fuel db' e tip' acct pay sp oo permitted pol lp lock canon = Ok steps ->
   In s steps -> In x (s_inputs s) -> ~ In x refs.
 Proof. exact locked_proposal_not_reused. Qed.
 
 (** *** Proposals *)
 
-(** proposal_balanced / selected_spendable / no input twice, for every change strategy:
-    every step's inputs are distinct spendable rows of the wallet in permitted pools, its value is
-    their sum, and inputs = payments + change + fee. *)
+(** proposal_balanced / selected_spendable / no input twice, for every change strategy and for
+    both attempts of propose_transfer (ordinary; canonical ZIP 318 crossing against the bucketed
+    anchor): inputs are distinct across steps; each step binds an anchor [a]; its inputs are distinct
+    wallet rows of the account in permitted pools, unspent at the target height, confirmed under
+    the CALLER's policy, mined at or below the anchor THE STEP BINDS, not locked by another owner;
+    the step's value is their sum and inputs = payments + change + fee. *)
 Theorem C08_proposal_sound :
-  forall change fuel db e tip acct pay orchard_out permitted pol lp lock steps,
+  forall change fuel db e tip acct pay single_payment orchard_out permitted pol lp lock canon steps,
   NoDup (rrefs db) -> 1 <= p_trusted pol -> p_trusted pol <= p_untrusted pol ->
-  propose_transfer change fuel db e tip acct pay orchard_out permitted pol lp lock = Ok steps ->
+  (forall ci, canon = Some ci -> 0 < c_interval ci) ->
+  (forall ci sa, canon = Some ci -> c_sel_anchor ci = Some sa -> sa <= c_boundary ci) ->
+  propose_transfer change fuel db e tip acct pay single_payment orchard_out permitted pol lp lock canon = Ok steps ->
   NoDup (concat (map s_inputs steps))
   /\ forall s, In s steps ->
-       step_ok db e acct pay (pool_preference false orchard_out permitted) pol lp s.
+       exists a inputs,
+         s_anchor s = Some a /\ s_inputs s = rrefs inputs /\ NoDup (rrefs inputs)
+         /\ s_in_value s = sum_values inputs /\ s_tin s = 0 /\ s_pay s = pay /\ step_balanced s = true
+         /\ forall r, In r inputs ->
+              In r db /\ input_ok acct (e_target e) a pol (overridable (LFPolicy lp)) permitted r.
+Proof. exact proposal_inputs_at_step_anchor. Qed.
+
+(** ... and, in full, which attempt produced each step and that its rows are spendable (including
+    witnessable) at the anchor the data source selected at. *)
+Theorem C08_proposal_origin :
+  forall change fuel db e tip acct pay single_payment orchard_out permitted pol lp lock canon steps,
+  NoDup (rrefs db) -> 1 <= p_trusted pol -> p_trusted pol <= p_untrusted pol ->
+  (forall ci, canon = Some ci -> 0 < c_interval ci) ->
+  propose_transfer change fuel db e tip acct pay single_payment orchard_out permitted pol lp lock canon = Ok steps ->
+  NoDup (concat (map s_inputs steps))
+  /\ forall s, In s steps -> step_origin db e acct pay orchard_out permitted pol lp canon s.
 Proof. exact propose_transfer_sound. Qed.
+
+(** The bucketed policy is stricter than the caller's and anchors on a grid boundary above activation. *)
+Theorem C08_bucketed_spec : forall pol interval target activation bp,
+  0 < interval -> 1 <= p_trusted pol -> p_trusted pol <= p_untrusted pol ->
+  bucketed pol interval target activation = Some bp ->
+  p_trusted pol <= p_trusted bp /\ p_untrusted pol <= p_untrusted bp
+  /\ 1 <= p_trusted bp /\ p_trusted bp <= p_untrusted bp
+  /\ (ssub target (p_trusted bp)) mod interval = 0
+  /\ activation < ssub target (p_trusted bp).
+Proof. exact bucketed_spec. Qed.
 
 Theorem C08_preference_within_permitted : forall iw oo permitted p,
   In p (pool_preference iw oo permitted) -> In p permitted.
@@ -132,31 +164,31 @@ Proof. exact pool_preference_permitted. Qed.
 
 (** insufficient_errs: when the spendable rows are worth less than the payments, no proposal. *)
 Theorem C08_insufficient_errs :
-  forall change db e acct pay prefs pol lp,
+  forall change db e acct pay prefs pol lp iw step_anchor single,
   NoDup (rrefs db) -> 1 <= p_trusted pol -> p_trusted pol <= p_untrusted pol ->
   (forall r, In r db -> 0 <= r_value r) ->
   forall fuel s,
   change_nonneg change ->
   sum_values (filter (okrowb e acct prefs pol lp) db) < pay ->
-  propose_transaction change db e acct pay prefs pol lp fuel <> Ok s.
+  propose_transaction change db e acct pay prefs pol lp iw step_anchor single fuel <> Ok s.
 Proof. exact insufficient_is_error. Qed.
 
 (** greedy_terminates: fuel above the wallet's total value is never exhausted (the loop's own
     argument: the selected value strictly increases and is bounded), and more fuel does not change
     a result. *)
 Theorem C08_greedy_terminates :
-  forall change db e acct pay prefs pol lp,
+  forall change db e acct pay prefs pol lp iw step_anchor single,
   NoDup (rrefs db) -> 1 <= p_trusted pol -> p_trusted pol <= p_untrusted pol ->
   (forall r, In r db -> 0 <= r_value r) ->
   forall fuel,
   sum_values db < Z.of_nat fuel ->
-  propose_transaction change db e acct pay prefs pol lp fuel <> Err EOutOfFuel.
+  propose_transaction change db e acct pay prefs pol lp iw step_anchor single fuel <> Err EOutOfFuel.
 Proof. exact greedy_terminates. Qed.
 
 Theorem C08_greedy_fuel_irrelevant :
-  forall change db e acct pay prefs pol lp fuel sel prior req excl r,
-  greedy change db e acct pay prefs pol lp fuel sel prior req excl = r -> r <> Err EOutOfFuel ->
-  greedy change db e acct pay prefs pol lp (S fuel) sel prior req excl = r.
+  forall change db e acct pay prefs pol lp iw step_anchor single fuel sel prior req excl r,
+  greedy change db e acct pay prefs pol lp iw step_anchor single fuel sel prior req excl = r -> r <> Err EOutOfFuel ->
+  greedy change db e acct pay prefs pol lp iw step_anchor single (S fuel) sel prior req excl = r.
 Proof. exact greedy_fuel_mono. Qed.
 
 (** *** Bridge: correspondence => property, for select_spendable_notes(AtLeast) cases *)
@@ -165,6 +197,26 @@ Theorem C08_bridge_select : forall db e acct p z pol exclude lf obs,
   run_case (CSelect db e acct p (TAtLeast z) pol exclude lf obs) = true ->
   prop_case (CSelect db e acct p (TAtLeast z) pol exclude lf obs) = true.
 Proof. exact bridge_select_atleast. Qed.
+
+Theorem C08_bridge_lock : forall db tip refs owner expiry obs post,
+  wf_case (CLock db tip refs owner expiry obs post) = true ->
+  run_case (CLock db tip refs owner expiry obs post) = true ->
+  prop_case (CLock db tip refs owner expiry obs post) = true.
+Proof. exact bridge_lock. Qed.
+
+(** For propose_transfer cases the bridge needs, when a canonical attempt is possible, that the data
+    source's anchor under the bucketed policy IS the boundary ([canon_sel_at_boundary]); prop_case
+    checks witnessability at the anchor the step binds, the theorems prove it at the selection anchor. *)
+Theorem C08_bridge_propose : forall db e acct pay sp oo permitted pol lp lock canon oracle obs,
+  wf_case (CPropose db e acct pay sp oo permitted pol lp lock canon oracle obs) = true ->
+  canon_sel_at_boundary (CPropose db e acct pay sp oo permitted pol lp lock canon oracle obs) = true ->
+  run_case (CPropose db e acct pay sp oo permitted pol lp lock canon oracle obs) = true ->
+  prop_case (CPropose db e acct pay sp oo permitted pol lp lock canon oracle obs) = true.
+Proof. exact bridge_propose. Qed.
+
+Theorem C08_propose_never_panics : forall change fuel db e tip acct pay sp oo permitted pol lp lock canon,
+  propose_transfer change fuel db e tip acct pay sp oo permitted pol lp lock canon <> Panic.
+Proof. exact propose_transfer_no_panic. Qed.
 
 (** *** Non-vacuity: a wallet with two notes, one locked by owner 2 *)
 Definition ex_db : list note_row :=
@@ -179,10 +231,23 @@ Example C08_nonvacuous_select :
 Proof. vm_compute. reflexivity. Qed.
 
 Example C08_nonvacuous_propose :
-  propose_transfer (fun l => match l with [] => OInsuff 30000 | _ => OBal 30000 10000 end) 8
-    ex_db ex_env (Some 111) 0 20000 false [Sapling; Orchard] (Pol 1 1) LExclude None
-  = Ok [Step [(Sapling, 1)] 60000 0 20000 30000 10000].
+  propose_transfer (fun _ l => match l with [] => OInsuff 30000 | _ => OBal [(CP Sapling, 30000)] 10000 end) 8
+    ex_db ex_env (Some 111) 0 20000 true false [Sapling; Orchard] (Pol 1 1) LExclude None None
+  = Ok [Step [(Sapling, 1)] 60000 0 20000 [(CP Sapling, 30000)] 10000 (Some 111)].
 Proof. vm_compute. reflexivity. Qed.
+
+(** A canonical ZIP 318 crossing: grid of 12 blocks, NU6.3 active from 100; one Orchard note mined
+    at or below the bucketed boundary 144 is spent against that boundary; a note mined after it is not. *)
+Definition ex_db2 : list note_row :=
+  [ R 1 0 Orchard 1500000 (Some 150) (Some 150) None 150 true (Some 0) true (Some 0) false false (Some 10) None false None None [];
+    R 2 0 Orchard 1200000 (Some 120) (Some 120) None 120 true (Some 0) true (Some 1) false false (Some 10) None false None None [] ].
+Example C08_nonvacuous_canonical :
+  bucketed (Pol 1 1) 12 160 100 = Some (Pol 16 16)
+  /\ propose_transfer (fun a l => match l with [] => OInsuff 1015000 | _ => OBal [(CP Orchard, 185000)] 15000 end) 8
+       ex_db2 (Env 160 (Some 159) []) (Some 159) 0 1000000 true true [Sapling; Orchard] (Pol 1 1) LExclude None
+       (Some (CI 12 100 144 true (Some 144) (Some 15000)))
+     = Ok [Step [(Orchard, 2)] 1200000 0 1000000 [(CP Orchard, 185000)] 15000 (Some 144)].
+Proof. vm_compute. split; reflexivity. Qed.
 
 Example C08_nonvacuous_lock :
   match lock_outputs (Some 111) 1 115 [(Sapling, 1)] ex_db with Some db' => map r_lock db' | None => [] end
